@@ -50,8 +50,12 @@ OPEN_TITLES = {k: v[2] for k, v in PINNED.items()}
 FIXED_COMMITS = {"K-catch-pop": "790993c", "K-stale-error-ip-a": "26bae81", "K-stale-error-ip-b": "26bae81", "K-handler-offset-65536": "70f8b24"}
 
 # ---- other properties: (property, id, status, commit, title, scenario dict)
-from sim.props import c09, c15, c12, c01, c16
+from sim.props import c09, c15, c12, c01, c16, c14
 OTHER = [
+ ("C14", "K-modules-lack-core-library-classes", "fixed", "2941b02",
+  "imported modules got the interpreter's built-in classes and the core library's Iter/MapIter/FilterIter, but not Error, its subclasses and StopIter: naming one of them in a module raised NameError",
+  {"ir": {"mods": [{"bind": "m0", "lazy": None, "path": "m0", "reads": [], "stmts": []}, {"bind": "m1", "lazy": None, "path": "m1", "reads": [], "stmts": []}],
+          "shape": "dag", "sites": 0, "steps": 12}, "tape": [0, 0, 0, 8, 0, 0] + [0] * 30, "faults": {}}),
  ("C01", "K-bound-native-reclaimed-during-its-call", "fixed", "c7ee09c",
   "call_value() kept the bound method borrowed while the callee ran: a bound built-in method reachable only through the callee's stack slot (returned by a function and called at once) was reclaimed by a collection during the call and the borrow guard's drop wrote into freed memory (dev builds: panic 'RefCell already mutably borrowed')",
   {"ir": {"gadgets": [["op", 37, 1000, "global"]], "reset": False}, "gc_tape": "ff" * 64, "gc_rate": 2}),
@@ -123,7 +127,7 @@ def main():
         else:
             entries.append({"id": name, "property": "C08", "status": "fixed", "commit": FIXED_COMMITS[name], "title": title,
                             "scenario": "findings/C08/%s.json" % name, "record": "fixed: property=C08 %s %s" % (FIXED_COMMITS[name], title)})
-    props = {"C09": c09.PROP, "C15": c15.PROP, "C12": c12.PROP, "C01": c01.PROP, "C16": c16.PROP}
+    props = {"C09": c09.PROP, "C15": c15.PROP, "C12": c12.PROP, "C01": c01.PROP, "C16": c16.PROP, "C14": c14.PROP}
     for pid, name, status, commit, title, sc in OTHER:
         d = os.path.join(build.ROOT, "findings", pid)
         os.makedirs(d, exist_ok=True)
